@@ -15,6 +15,8 @@ CmdsGH == {"G", "H"}
 CmdsAGH == {"A", "G", "H"}
 CodesOkErr == {"ok", "err"}
 CmdsAB == {"A", "B"}
+CmdsAC == {"A", "C"}
+CmdsCR == {"C", "R"}
 CmdsAR == {"A", "R"}
 CmdsABR == {"A", "B", "R"}
 =============================================================================
